@@ -519,6 +519,116 @@ fn vmem_calls(src: &mut Src) -> Result<String, String> {
     Ok(o)
 }
 
+// ---------------------------------------------------------------- G9 construction and split
+
+/// The transcriber body of `macro_rules! name { (..) => { BODY } }` with `$Struct` replaced by an identifier, parsed as items.
+fn macro_body_items(file: &syn::File, mac_name: &str) -> Result<syn::File, String> {
+    fn find<'a>(items: &'a [syn::Item], name: &str) -> Option<&'a syn::ItemMacro> {
+        for it in items { match it {
+            syn::Item::Macro(m) if m.ident.as_ref().map(|i| i == name).unwrap_or(false) => return Some(m),
+            syn::Item::Mod(md) => if let Some((_, its)) = &md.content { if let Some(m) = find(its, name) { return Some(m); } },
+            _ => {} } }
+        None
+    }
+    let m = find(&file.items, mac_name).ok_or(format!("macro_rules! {mac_name} not found"))?;
+    let body = m.mac.tokens.clone().into_iter().filter_map(|t| match t { proc_macro2::TokenTree::Group(g) if g.delimiter() == proc_macro2::Delimiter::Brace => Some(g), _ => None }).last()
+        .ok_or(format!("macro_rules! {mac_name}: no transcriber body"))?;
+    fn subst(ts: proc_macro2::TokenStream) -> proc_macro2::TokenStream {
+        let mut out = vec![];
+        let mut it = ts.into_iter().peekable();
+        while let Some(t) = it.next() {
+            match t {
+                proc_macro2::TokenTree::Punct(p) if p.as_char() == '$' => {
+                    if let Some(proc_macro2::TokenTree::Ident(i)) = it.peek() { out.push(proc_macro2::TokenTree::Ident(proc_macro2::Ident::new(&format!("Mac{}", i), i.span()))); it.next(); }
+                }
+                proc_macro2::TokenTree::Group(g) => { let mut ng = proc_macro2::Group::new(g.delimiter(), subst(g.stream())); ng.set_span(g.span()); out.push(proc_macro2::TokenTree::Group(ng)); }
+                other => out.push(other),
+            }
+        }
+        out.into_iter().collect()
+    }
+    syn::parse2::<syn::File>(subst(body.stream())).map_err(|e| format!("macro_rules! {mac_name}: body does not parse as items: {e}"))
+}
+
+fn construction(src: &mut Src) -> Result<String, String> {
+    let mut o = String::new();
+    // (1) the split functions of `impl_splits!`
+    let file = src.file("src/ring_buffer/storage/mod.rs")?.clone();
+    let body = macro_body_items(&file, "impl_splits")?;
+    let mut rows = vec![];
+    for it in &body.items {
+        let i = match it { syn::Item::Impl(i) => i, _ => continue };
+        let tr = match &i.trait_ { Some((_, tr, _)) => quote::quote!(#tr).to_string().replace(' ', ""), None => continue };
+        let storage = if tr.starts_with("HeapSplit") { ".heap" } else if tr.starts_with("StackSplit") { ".stack" } else { continue };
+        for ii in &i.items {
+            let f = match ii { syn::ImplItem::Fn(f) => f, _ => continue };
+            let name = f.sig.ident.to_string();
+            if name != "split" && name != "split_mut" { continue; }
+            let (mut resets, mut alive, mut iters, mut bufref) = (vec![], vec![], vec![], String::new());
+            let mut v = SkelVisitor { out: vec![] };
+            let _ = &mut v;
+            for st in &f.block.stmts {
+                let t = quote::quote!(#st).to_string().replace(' ', "");
+                for (m, fld) in [("set_prod_index", ".prod"), ("set_work_index", ".work"), ("set_cons_index", ".cons")] {
+                    if t.starts_with(&format!("self.{m}(")) { if t == format!("self.{m}(0);") { resets.push(fld.to_string()); } else { return Err(format!("{name}: `{t}` does not reset the index to 0")); } }
+                }
+                for (m, r) in [("set_prod_alive", ".P"), ("set_work_alive", ".W"), ("set_cons_alive", ".C")] {
+                    if t.starts_with(&format!("self.{m}(")) { if t == format!("self.{m}(true);") { alive.push(r.to_string()); } else { return Err(format!("{name}: `{t}`")); } }
+                }
+                if t.starts_with("letr=BufRef::") { bufref = t.trim_start_matches("letr=BufRef::").split('(').next().unwrap_or("").to_string(); }
+                if t.starts_with('(') {
+                    for (c, r) in [("ProdIter::new(", ".P"), ("WorkIter::new(", ".W"), ("ConsIter::new(", ".C")] { if t.contains(c) { iters.push((t.find(c).unwrap(), r.to_string())); } }
+                }
+            }
+            iters.sort();
+            rows.push(format!("{{ storage := {storage}, withWorker := {}, resets := [{}], alive := [{}], iters := [{}], bufRef := \"{bufref}\" }}",
+                name == "split_mut", resets.join(", "), alive.join(", "), iters.iter().map(|x| x.1.clone()).collect::<Vec<_>>().join(", ")));
+        }
+    }
+    if rows.len() != 4 { return Err(format!("impl_splits!: expected 4 split functions, found {}", rows.len())); }
+    o.push_str(&format!("def splits : List SplitInfo := [\n  {}]\n", rows.join(",\n  ")));
+    // (2) the buffer constructors `_from`
+    for (path, owner, lean) in [("src/ring_buffer/variants/concurrent_rb.rs", "ConcurrentMutRingBuf<S>", "concInit"), ("src/ring_buffer/variants/local_rb.rs", "LocalMutRingBuf<S>", "localInit")] {
+        let file = src.file(path)?.clone();
+        let f = find_fn(&file, owner, "_from").ok_or(format!("`_from` of {owner} not found"))?;
+        let b = f.block;
+        let t = quote::quote!(#b).to_string().replace(' ', "");
+        let zero = |fld: &str| t.contains(&format!("{fld}:CachePadded::new(0.into())")) || t.contains(&format!("{fld}:0.into()"));
+        let falsy = |fld: &str| t.contains(&format!("{fld}:AtomicBool::default()")) || t.contains(&format!("{fld}:false.into()")) || t.contains(&format!("{fld}:AtomicBool::new(false)"));
+        o.push_str(&format!("def {lean} : BufInit := {{ idxZero := {}, flagsFalse := {}, counterZero := {}, lenIsStorageLen := {}, refusesEmpty := {} }}\n",
+            zero("prod_idx") && zero("work_idx") && zero("cons_idx"), falsy("prod_alive") && falsy("work_alive") && falsy("cons_alive"),
+            t.contains("alive_iters:AtomicUsize::new(0)") || t.contains("alive_iters:0.into()"),
+            t.contains("inner_len:NonZeroUsize::new(value.len()).unwrap()"), t.contains("assert!(value.len()>0);")));
+    }
+    // (3) fresh iterators start at index 0 with nothing remembered
+    let mut fresh = vec![];
+    for (path, owner) in [("src/iterators/sync_iterators/prod_iter.rs", "ProdIter<'buf,B>"), ("src/iterators/sync_iterators/work_iter.rs", "WorkIter<'buf,B>"), ("src/iterators/sync_iterators/cons_iter.rs", "ConsIter<'buf,B,W>")] {
+        let file = src.file(path)?.clone();
+        let f = find_fn(&file, owner, "new").ok_or(format!("`new` of {owner} not found"))?;
+        let b = f.block;
+        let t = quote::quote!(#b).to_string().replace(' ', "");
+        fresh.push(t.contains("index:0,") && t.contains("cached_avail:0,"));
+    }
+    o.push_str(&format!("def iterNewZero : List Bool := [{}]\n", fresh.iter().map(|b| b.to_string()).collect::<Vec<_>>().join(", ")));
+    // (4) lengths: From<Vec<T>> for HeapStorage, get_range_max (both configurations)
+    let file = src.file("src/ring_buffer/storage/heap/mod.rs")?.clone();
+    let f = find_fn(&file, "From<Vec<T>>forHeapStorage<T>", "from").ok_or("From<Vec<T>> for HeapStorage<T> not found")?;
+    let b = f.block;
+    o.push_str(&format!("def pinHeapFromVec : String := \"{}\"\n", quote::quote!(#b).to_string().replace(' ', "")));
+    let file = src.file("src/ring_buffer/storage/heap/rb.rs")?.clone();
+    let f = find_fn(&file, "", "get_range_max").ok_or("get_range_max not found")?;
+    let b = f.block;
+    o.push_str(&format!("def pinRangeMax : String := \"{}\"\n", quote::quote!(#b).to_string().replace(' ', "").replace('"', "'")));
+    let body = macro_body_items(&file, "impl_rb")?;
+    let mut pins = vec![];
+    for it in &body.items { if let syn::Item::Impl(i) = it { for ii in &i.items { if let syn::ImplItem::Fn(f) = ii {
+        let n = f.sig.ident.to_string();
+        if n == "from" || n == "default" || n == "new_zeroed" { let b = &f.block; pins.push(format!("(\"{n}\", \"{}\")", quote::quote!(#b).to_string().replace(' ', "").replace('"', "'"))); }
+    } } } }
+    o.push_str(&format!("def pinHeapRbCtors : List (String × String) := [{}]\n", pins.join(", ")));
+    Ok(o)
+}
+
 // ---------------------------------------------------------------- G5 Send/Sync impls, G6 wake sites
 
 fn all_rs(dir: &std::path::Path, out: &mut Vec<std::path::PathBuf>) {
@@ -705,6 +815,7 @@ pub fn table_items(src: &mut Src, items: &mut Vec<Item>) {
     add("sendSync", "every `unsafe impl Send/Sync`, `impl ConcurrentRB`, struct fields, wake call sites under src/", send_sync(src));
     add("asyncDelegation", "src/iterators/async_iterators/*.rs: which synchronous method each future runs; MRBFuture::poll", async_delegation(src));
     add("loops", "every function of the iterators / buffer variants / wrappers that contains a loop", loops(src));
+    add("construction", "impl_splits!, the buffers' `_from`, the iterators' `new`, From<Vec<T>> for HeapStorage, get_range_max, impl_rb!", construction(src));
     add("vmemCalls", "src/ring_buffer/storage/heap/vmem_helper.rs::new, Drop for HeapStorage (vmem): mmap/memcpy/munmap arguments", vmem_calls(src));
     add("pins", "cell primitives (check_zeroed, take_inner, inner_duplicate, Drop) and copy_from_slice_unchecked", pins(src));
 }
